@@ -52,7 +52,7 @@ func (fullGraph *FullGraph) MergeHeaderFile(merge func(string) string) *FullGrap
 			Style: "\"solid\"",
 		}
 
-		result.RelationList[mergedRelation.From+mergedRelation.To] = mergedRelation
+		result.RelationList[mergedRelation.From+"->"+mergedRelation.To] = mergedRelation
 	}
 	return result
 }
